@@ -44,7 +44,7 @@ Outgoing(s, dir) == (s.real = "server" /\ dir = "s2c") \/ (s.real = "client" /\ 
 
 Apply(s, e) ==
     CASE e.ev = "open" ->
-            IF e.sid \in s.isopen THEN No(s, "harness: open of an id that is open")
+            IF e.sid \in s.isopen THEN No(s, "an open returned a stream id that is already open (two streams share one id)")
             ELSE LET i == Inc(s, e.sid) + 1 IN
                  Ok([s EXCEPT !.inc = Put(s.inc, e.sid, i), !.isopen = @ \cup {e.sid},
                               !.flows = Put(Put(s.flows, <<"c2s", e.sid, i>>, NewFlow), <<"s2c", e.sid, i>>, NewFlow)])
